@@ -96,6 +96,9 @@ def run_property(prop_id, tier='quick', seed=0, jobs=None):
     jobs = jobs or min(16, os.cpu_count() or 4)
     kf = load_known_findings()
     timeout_ms = getattr(mod, 'TIMEOUT_MS', {}).get(tier, 10000 if tier == 'quick' else 60000)
+    # the budget only matters for obligations that are hard or fail: on the unchanged tree the slowest query takes z3 about 8 s alone,
+    # and a generous ceiling keeps verdicts from flipping when the machine is busy (observed once at 4x oversubscription with 30 s)
+    timeout_ms = max(timeout_ms, 60000 if tier == 'quick' else 120000)
     fns = list(getattr(mod, 'FUNCTIONS', []))
     ctx = mp.get_context('fork')
     if tier == 'thorough':
@@ -350,6 +353,8 @@ def finish(mod, res: Result, kf):
         trusted_base=list(getattr(mod, 'TRUSTED', [])),
         backends=backends, solver_time_s=round(solver_time, 2),
         second_opinion_cvc5=second or None,
+        slowest_obligations=[dict(obligation=i, time_s=t, backend=b) for t, i, b in sorted(
+            ((o.get('time') or 0, o['id'], o.get('backend')) for r in res.functions for o in r['obligations']), reverse=True)[:8]],
         functions_under_contract=fn_list,
         structural=[dict(id=o['id'], result=o['result'], desc=o['desc']) for o in res.structural][:60],
         lemmas=[dict(id=o['id'], result=o['result'], desc=o['desc']) for o in res.lemmas][:60],
